@@ -138,6 +138,13 @@ def runC16 (line : String) : String :=
               s!"ok n={sizes.length} sizes={sizesS} plan={planS} const={constS}"
           | _, _ => "panic"
     | _, _, _, _, _, _ => "bad-case"
+  -- `S <w> <filter> <variant> <seed>`: six faces through one encoder, aligned vs `variant` input (harness oracle
+  -- only: the model's statement is that alignment is not an input of the model at all)
+  | ["S", w, filter, variant, seed] =>
+    match nat? w, parseFilter16 filter, nat? seed with
+    | some w, some _, some seed =>
+      if w = 0 ∨ w > 64 ∨ seed ≥ 2 ^ 64 ∨ variant ∉ ["al", "o1", "o2", "o3", "st"] then "bad-case" else "seq ok"
+    | _, _, _ => "bad-case"
   | _ => "bad-case"
 
 end Dds.Drv.C16
